@@ -481,7 +481,7 @@ pub fn apply_op(op: &Op, top: bool) {
             audit(!top);
         }
         Op::TryUnwrap(_) | Op::MakeMut(_) | Op::GetMut(_) | Op::IntoRaw(_) | Op::FromRaw(_) | Op::IncStrong(_) | Op::DecStrong(_) | Op::DropLoose(_) => {
-            if top && (mode == Mode::Consume || mode == Mode::NoAdopt) {
+            if top && (mode == Mode::Consume || mode == Mode::NoAdopt || mode == Mode::Elide) {
                 crate::consume::apply(op);
             } else {
                 noop();
